@@ -116,18 +116,20 @@ def rhs_correspondence(ctx, drv):
             ctx.disagreement("rhs:" + rep["model"], dict(rep, impl=[float(x) for x in dy], lean=[float(x) for x in want]))
 
 
-def probe_known2(ctx):
-    """the recorded failing input of the SIR effective-degree instability (corpus/C06)"""
-    import EoN, json, os
-    c = json.load(open(os.path.join(common.VERIF, "corpus", "C06", "sir_effective_degree_depleting.json")))
-    H = nx.Graph(); H.add_nodes_from(range(c["n"])); H.add_edges_from(c["edges"])
-    try:
-        with np.errstate(all="ignore"):
-            t, S, I, R = EoN.SIR_effective_degree_from_graph(H, c["tau"], c["gamma"], rho=c["rho"], tmax=c["tmax"], tcount=c["tcount"])
-        bad = (not np.all(np.isfinite(S + I + R))) or np.max(np.diff(S)) > 1e-6 * c["n"] or np.min(np.diff(R)) < -1e-6 * c["n"]
-    except Exception:
-        bad = True
-    if bad:
+def probe_known2_start():
+    """the recorded failing input of the SIR effective-degree instability (corpus/C06) — 45 s of stiff integration, run in
+    its own process (harness/c06_probe2.py) while the other streams of the check run"""
+    import subprocess, sys, os
+    return subprocess.Popen([sys.executable, os.path.join(os.path.dirname(os.path.abspath(__file__)), "c06_probe2.py")],
+                            stdout=subprocess.PIPE, stderr=subprocess.PIPE, text=True)
+
+
+def probe_known2(ctx, proc):
+    out, err = proc.communicate()
+    verdict = out.strip().splitlines()[-1] if out.strip() else None
+    if verdict not in ("BAD", "OK"):
+        raise RuntimeError("c06_probe2 failed: " + err[-800:])
+    if verdict == "BAD":
         ctx.violation("SIR_effective_degree_from_graph: unstable when susceptibles are exhausted",
                       dict(entry="SIR_effective_degree_from_graph", depleting=True, probe=True))
 
@@ -411,6 +413,7 @@ def layouts(ctx):
 
 def run(ctx):
     drv = common.LeanDriver()
+    probe2 = probe_known2_start()
     generated_initcond(ctx)
     generated_glue(ctx)
     import genwrap, genglue2
@@ -418,7 +421,6 @@ def run(ctx):
     genglue2.run_stream(ctx)          # sixteen further ODE entry points regenerated whole (Gen/OdeGlue2.lean)
     layouts(ctx)
     probe_known(ctx)
-    probe_known2(ctx)
     probe_known3(ctx)
     rhs_correspondence(ctx, drv)
     reqs, metas = [], []
@@ -487,6 +489,7 @@ def run(ctx):
             reqs.append(dict(op="ode_ic", adj=gen.adj_lists(G, idx), infs=[idx[u] for u in desc.get("infs", [])],
                              recs=[idx[u] for u in desc.get("recs", [])], rho=common.rs(F(rho).limit_denominator(10 ** 6) if rho else 0)))
             metas.append((rep, e, desc, res, G))
+    probe_known2(ctx, probe2)
     for (rep, e, desc, res, G), ic in zip(metas, drv.batch(reqs)):
         name = e["name"]
         N = G.order()
